@@ -533,6 +533,7 @@ CHECKS["C05"] = dict(
     assumptions=["the idle time-out (10 min) is larger than every generated gap: the idle cut-off itself is not exercised",
                  "abortive closes (RST with unread data) are not generated: TCP itself then drops data"],
     parts=[
+        dict(name="pingpong", test="TestPingPong", kind="rapid", checks={"quick": 200, "thorough": 2000}, shards=16, timeout={"quick": 900, "thorough": 3400}, shrinktime="30s"),
         dict(name="relay", test="TestRelay", kind="rapid", checks={"quick": 10, "thorough": 1200}, shards=16, timeout={"quick": 900, "thorough": 3400}, shrinktime="60s", gomaxprocs=4),
     ],
 )
